@@ -296,6 +296,9 @@ func init() {
 			// logGo(i, name): entry i is a go statement starting the function called name
 			e := s.logEntry(args[0])
 			want := args[1].(*StringV).litOr("")
+			if e.Callee == "?" || e.Callee == "none" {
+				return []Value{s.unknownBool("logGo")}
+			}
 			if e.Callee != "go" || len(e.Args) == 0 {
 				return []Value{BoolConst(false)}
 			}
@@ -322,11 +325,11 @@ func init() {
 			e := s.logEntry(args[0])
 			d := asTerm(args[1])
 			if len(e.Args) < 1 {
-				return []Value{False}
+				return []Value{s.unknownBool("logDeadlineFresh")}
 			}
 			tv, ok := e.Args[0].(*OpaqueV)
 			if !ok || tv.T == nil {
-				return []Value{False}
+				return []Value{s.unknownBool("logDeadlineFresh")}
 			}
 			// the deadline is now+d for a time.Now() taken during this call and not before the previous logged call
 			for _, now := range s.nowCalls[e.NowsBefore:] {
@@ -341,6 +344,9 @@ func init() {
 			e := s.logEntry(args[0])
 			kind := args[1].(*StringV).litOr("")
 			name := args[2].(*StringV).litOr("")
+			if e.Callee == "?" || e.Callee == "none" {
+				return []Value{s.unknownBool("logIs")}
+			}
 			return []Value{BoolConst(e.Callee == kind && s.chanName(e.Target) == name)}
 		},
 		"logArg": func(s *State, fn *ssa.Function, args []Value, where string) []Value {
@@ -376,7 +382,7 @@ func init() {
 			e := s.logEntry(args[0])
 			k := asTerm(args[1])
 			if !k.IsConst() || int(k.Val) >= len(e.Args) {
-				return []Value{False}
+				return []Value{s.unknownBool("logArgIsPtr")}
 			}
 			want := args[2]
 			if iv, ok := want.(*IfaceV); ok && iv.Type.IsConst() {
@@ -385,7 +391,7 @@ func init() {
 			a, ok1 := e.Args[k.Val].(*PtrV)
 			b, ok2 := want.(*PtrV)
 			if !ok1 || !ok2 {
-				return []Value{False}
+				return []Value{s.unknownBool("logArgIsPtr")}
 			}
 			return []Value{s.ptrEq(a, b)}
 		},
@@ -1386,6 +1392,17 @@ func bePut(w int) intrinsicFn {
 		s.heap[o.ID] = &ArrayV{Arr: arr, N: av.N, Elem: av.Elem}
 		return nil
 	}
+}
+
+// unknownBool: the answer of a ghost predicate about a log entry whose details this path does not have (an entry
+// appended by a callee's contract).  When the clause is being PROVED the answer is false (the proof fails, as it
+// should); when the clause is being ASSUMED (a callee's postcondition at a call site) false would silently end the
+// path, so the answer is an unconstrained boolean.
+func (s *State) unknownBool(tag string) *Term {
+	if s.assuming > 0 {
+		return s.freshVar("unknown."+tag, BoolSort)
+	}
+	return False
 }
 
 // crcFold(c, p, n): uninterpreted, with unfolding axioms instantiated here.
